@@ -148,7 +148,8 @@ public:
     usize size = data.bufferEnd - data.bufferStart;
     resize(bufferEnd - bufferStart + size);
     Memory::copy(bufferEnd - size, data.bufferStart, size);
-    *bufferEnd = 0;
+    if(buffer)
+      *bufferEnd = 0;
   }
 
   void resize(usize size)
